@@ -1,7 +1,7 @@
 #!/bin/bash
 # regression over all kept seeded changes: apply each to /repo, run its property's quick check, undo; one summary line per seed
 cd /verif
-for d in seeded/*/; do
+for d in seeded/${1:-*}/; do
   id=$(basename $d); prop=${id%%-*}
   git -C /repo apply /verif/$d/patch.diff || { echo "$id PATCH-DOES-NOT-APPLY"; continue; }
   out=$(./check $prop 2>/dev/null | grep -E "^VIOLATION|^\[")
